@@ -114,7 +114,7 @@ func checkC19(cfg *core.Config) int {
 	// exhaustive part: every list up to length maxLen over alphabet x priority.
 	// Since the space is closed under permutation, agreement with the
 	// order-independent reference on every list is permutation invariance.
-	alphabet := []string{"", "a", "aa", "B"}
+	alphabet := []string{"", "a", "A", "aa"} // "a"/"A": IDs differing by case only are distinct
 	maxLen := cfg.Pick(5, 7)
 	symbols := len(alphabet) * 2
 	total := 0
@@ -158,7 +158,7 @@ func checkC19(cfg *core.Config) int {
 	// elements, where instability becomes observable), plus permutations.
 	nRandom := cfg.Pick(4000, 150000)
 	rng := core.Rand(cfg.Seed, "C19")
-	pool := []string{"", "a", "aa", "ab", "B", "Z", "_x", "__header", "aa_header", "zz_", "é", "a b", "10", "9", "A.b", "ac_constraints", "ab_T", "aaa_C"}
+	pool := []string{"", "a", "aa", "ab", "A", "Aa", "AB", "aB", "B", "Z", "_x", "__header", "aa_header", "zz_", "é", "a b", "10", "9", "A.b", "ac_constraints", "ab_T", "aaa_C"}
 	perms := 0
 	for i := 0; i < nRandom; i++ {
 		n := 1 + rng.Intn(60)
